@@ -175,8 +175,57 @@ Definition run_ratio2 (op : N) (a b : ratio) (p : profile) : list N :=
   | _ => S_ "BADCASE"
   end.
 
+(* 14 op k a1..ak b1..bm : the binary API operation on every pair (ai, bj) — the
+   operands are the k resp. m representations of two values (C08 representation
+   independence); 15 a b : == partial_cmp < <= > >= on the API; 16 args.. : the
+   procedures = < > <= >= min max through Vm::eval on the same arguments;
+   17 a b c : each of = < > <= >= on (a b) (b c) (a c) (a b c) *)
+Fixpoint decode_nums (fuel : nat) (l : list N) : option (list num) :=
+  match fuel with
+  | O => None
+  | S f =>
+      match l with
+      | [] => Some []
+      | _ => match decode_num l with
+             | Some (a, r) => match decode_nums f r with Some t => Some (a :: t) | None => None end
+             | None => None
+             end
+      end
+  end.
+Definition semi (l : list N) : list N := 59 :: l.
+Definition run_indep (op : N) (xs ys : list num) (p : profile) : list N :=
+  S_ "ALL" ++ flat_map (fun a => flat_map (fun b => semi (run_binary op a b p)) ys) xs.
+Definition run_cmp6 (a b : num) (p : profile) : list N :=
+  S_ "CMP" ++ flat_map (fun op => semi (run_binary op a b p)) [7; 8; 9; 10; 11; 12].
+Definition run_vm7 (args : list arg) (p : profile) : list N :=
+  S_ "VM" ++ flat_map (fun proc => semi (run_builtin proc args p)) [4; 5; 6; 7; 8; 9; 10].
+Definition run_tri (a b c : arg) (p : profile) : list N :=
+  S_ "TRI" ++ flat_map (fun proc =>
+      flat_map (fun args => semi (run_builtin proc args p)) [[a; b]; [b; c]; [a; c]; [a; b; c]])
+    [4; 5; 6; 7; 8].
+
 Definition run_num (c : list N) : list N :=
   match c with
+  | 14 :: op :: k :: r =>
+      match decode_nums (S (length r)) r with
+      | Some l => both (run_indep op (firstn (N.to_nat k) l) (skipn (N.to_nat k) l))
+      | None => S_ "BADCASE"
+      end
+  | 15 :: r =>
+      match decode_nums (S (length r)) r with
+      | Some [a; b] => both (run_cmp6 a b)
+      | _ => S_ "BADCASE"
+      end
+  | 16 :: r =>
+      match decode_args (S (length r)) r with
+      | Some args => both (run_vm7 args)
+      | None => S_ "BADCASE"
+      end
+  | 17 :: r =>
+      match decode_args (S (length r)) r with
+      | Some [a; b; c] => both (run_tri a b c)
+      | _ => S_ "BADCASE"
+      end
   | 10 :: op :: r =>
       match decode_num r with
       | Some (a, r1) => match decode_num r1 with
